@@ -93,6 +93,7 @@ def main(mod, argv=None):
             i += 2
         else:
             i += 1
+    os.environ['VERIF_TIER_EFFECTIVE'] = tier
     seed = int(os.environ.get('VERIF_SEED', '0') or 0)
     pid = mod.ID
     if replay_path:
